@@ -33,18 +33,18 @@ RULE = ("case = one history (format x 2-3 branches x merges x tags) copied to tw
         "(plain | newer verbs removed | no VFS); an evaluation = one op judged on both twins, or one final-state "
         "comparison; non-trivial = the op addressed a served (bzr://) location; distinct = (op kind, lock mode, "
         "handle slot, outcome class, format, server mode)")
-CASES = {"quick": 64, "thorough": 400}
-BUDGET_S = {"quick": 50, "thorough": 800}
-MIN_EVALS = {"quick": 300, "thorough": 5000}
+CASES = {"quick": 48, "thorough": 400}
+BUDGET_S = {"quick": 35, "thorough": 800}
+MIN_EVALS = {"quick": 250, "thorough": 3000}
 FLOORS = {
-    "oracle_op_result": 250,
-    "oracle_final_branch": 40,
-    "oracle_final_repo": 40,
-    "oracle_final_check": 40,
+    "oracle_op_result": 200,
+    "oracle_final_branch": 30,
+    "oracle_final_repo": 30,
+    "oracle_final_check": 30,
     "oracle_final_config": 20,
-    "oracle_final_checkout": 5,
-    "remote_ops": 200,
-    "server_stopped_clean": 20,
+    "oracle_final_checkout": 4,
+    "remote_ops": 150,
+    "server_stopped_clean": 16,
 }
 EXHAUSTIVE = {"quick": False, "thorough": False}
 RUST = []
@@ -92,6 +92,7 @@ CONF_VALUES = ["plain", "two words", "a,b,c", "quote \"q\" here", "'single'", "#
                "", "x=y", "semi;colon", "back\\slash", "[brackets]", "{ref}", "a, b", "\"", "'", "True", "multi\nline",
                "tab\there", "trailing,", "''", "'''", "\"\"\""]
 
+CONF_HOSTILE = [" lead", "trail ", " both ", "quote \"q\" here", "'single'", "a, b", "tab\there ", "\"dq\"", " 'sq' "]
 _state = {"nprog": 0}
 
 
@@ -129,6 +130,12 @@ class View:
             except Exception:
                 tags = {}
             d = {"tip": b.last_revision_info(), "revs": revs, "pm": {k: tuple(v) for k, v in pm.items()}, "tags": tags}
+            try:
+                nb = b.controldir.open_branch(ignore_fallbacks=True)
+                with nb.lock_read():
+                    d["own_revs"] = sorted(nb.repository.all_revision_ids())
+            except Exception:
+                d["own_revs"] = revs
             # left-hand history of the tip (ghost-free prefix)
             lh = []
             try:
@@ -175,7 +182,7 @@ def gen_next(rng, view, tier, counters):
         "parent_get": 2, "push_loc_get": 1, "stacked_on": 1, "phys": 1, "parent_map": 4, "get_revision": 3, "get_revisions": 1,
         "iter_revisions": 2, "rev_tree": 3, "rev_trees": 1, "files_bytes": 2, "all_revs": 3, "has_revs": 2, "stats": 3,
         "has_sig": 3, "sig_text": 1, "heads": 2, "revid_for_revno": 2, "delta": 1, "reopen": 2,
-        "tag_set": 6, "tag_del": 3, "conf_set": 6, "conf_remove": 1, "parent_set": 2, "push_loc_set": 1, "set_lri": 4,
+        "tag_set": 6, "tag_del": 3, "conf_set": 8, "conf_remove": 1, "parent_set": 2, "push_loc_set": 1, "set_lri": 4,
         "gen_rh": 2, "lock_episode": 4, "sig_add": 3, "wg_abort": 1, "pack": 2, "fetch": 5, "pull": 5, "push": 5,
         "push_new": 2, "sprout": 1, "commit": 8,
     }
@@ -213,7 +220,7 @@ def gen_next(rng, view, tier, counters):
         op["api"] = rng.choice(["stack", "stack", "old"]) if k == "conf_get" else "stack"
     elif k == "conf_set":
         op["name"] = rng.choice(CONF_NAMES[:3] if rng.random() < 0.7 else CONF_NAMES)
-        op["value"] = rng.choice(CONF_VALUES)
+        op["value"] = rng.choice(CONF_HOSTILE if rng.random() < 0.45 else CONF_VALUES)
         if op["name"] == "append_revisions_only":
             op["value"] = rng.choice(["True", "False"])
         op["api"] = rng.choice(["stack", "stack", "old"])
@@ -264,9 +271,11 @@ def gen_next(rng, view, tier, counters):
         op["revno"] = rng.randint(0, inf["tip"][0] + 1)
         op["known"] = inf["tip"]
     elif k in ("sig_add", "wg_abort"):
-        if not inf["revs"]:
+        # (a stacked repository: only revisions it holds itself - the server opens repositories without their fallbacks and
+        # refuses to sign a revision that lives in the stacked-on repository, a local repository accepts it)
+        if not inf["own_revs"]:
             return None
-        op["rev"] = rng.choice(inf["revs"])
+        op["rev"] = rng.choice(inf["own_revs"])
         counters["sig"] += 1
         op["text"] = b"-----BEGIN PSEUDO-SIGNED MESSAGE-----\nsig %d\n\xc3\xa9\x00\n" % counters["sig"]
     elif k in ("fetch", "pull", "push"):
@@ -294,6 +303,9 @@ def gen_next(rng, view, tier, counters):
         op["new"] = ("n%d" if rng.random() < 0.8 else "xn%d") % counters["new"]
         finf = view.info(op["from"])
         op["rev"] = rng.choice(finf["lefthand"]) if finf["lefthand"] and rng.random() < 0.3 else None
+        if counters.get("stackable") and view.side.is_served(op["new"]) and view.side.is_served(op["from"]) and rng.random() < 0.35:
+            # a new served branch stacked on the served branch it is cloned from (relative URL, as `push --stacked-on` stores it)
+            op["stacked"] = op["from"]
         op.pop("b")
     elif k == "sprout":
         counters["new"] += 1
@@ -420,7 +432,8 @@ def case(ctx):
     mode = rng.choice(["plain", "plain", "verbs-off", "novfs"])
     nrevs = rng.randint(3, 7) if tier == "quick" else rng.randint(3, 10)
     try:
-        hist = gen.build_history(ctx, rng, fmt=fmt, nrevs=nrevs, nbranches=3, ghosts=(rng.random() < 0.3), merges=True, tags=True)
+        hist = gen.build_history(ctx, rng, fmt=fmt, nrevs=nrevs, nbranches=3, ghosts=(rng.random() < 0.3), merges=True,
+                                 tags=(fmt != "knit"))
         stage = ctx.tmp("stage")
         shutil.copytree(hist.root, os.path.join(stage, "srv"), symlinks=True)
         os.mkdir(os.path.join(stage, "ext"))
@@ -439,7 +452,7 @@ def case(ctx):
             gen._uniq[0] = 50000
             gen.random_delta(rng, xwt, gen.Names("quick"), rng.randint(1, 3))
             xwt.commit("ext commit", rev_id=b"c32-ext-1", timestamp=1550000000, timezone=0, committer="Ext <x@example.com>")
-            if rng.random() < 0.5:
+            if rng.random() < 0.5 and xwt.branch._format.supports_tags():
                 xwt.branch.tags.set_tag(rng.choice(TAGS), xwt.last_revision())
         names.append("x0")
         # served trees have working trees that the server never updates; drop them so both twins agree trivially
@@ -481,7 +494,7 @@ def case(ctx):
         lside = L.Side("L", lroot)
         rside = L.Side("R", rroot, server.url)
         view = View(lside, names)
-        counters = {"sig": 0, "new": 0, "commit": 0}
+        counters = {"sig": 0, "new": 0, "commit": 0, "stackable": fmt in ("1.9", "1.14", "1.14-rich-root", "2a", "development-colo")}
         conf_used = set()
         done = 0
         guard = 0
@@ -535,6 +548,8 @@ def case(ctx):
             if touches_remote:
                 ctx.count("remote_ops")
             ctx.hist("op:" + kind)
+            if op.get("stacked"):
+                ctx.hist("push_new:stacked:" + rres[0])
             outcome = lres[0] if lres[0] == "ok" else "err:" + lres[1]
             ctx.hist("outcome:" + outcome)
             if lres[0] == "err" or rres[0] == "err":
